@@ -58,6 +58,39 @@ def array_pair_inst(to, frm, n, tier):
                 loop_contracts={('convert_type_fundamental_or_array', 0): lc}, note='array of %d: T_To=%s T_From=%s' % (n, to, frm))
 
 
+def dynamic_check_body_inst(tier):
+    """detail::dynamic_check itself (default build: no exceptions, no custom abort handler): it returns only if the condition
+    holds - every "or the operation aborts" clause of every property rests on this body, which is a contract leaf elsewhere"""
+    cl = [('returns_only_if_the_condition_holds', '__CPROVER_ensures($0)'),
+          ('aborts_exactly_when_it_does_not', '__CPROVER_ensures(g_aborts == 0)'),
+          ('frame', '__CPROVER_assigns(g_aborts)')]
+    pre = ('_Bool g_noabort; _Bool g_backend_nonnull; unsigned long g_expect_example; unsigned long g_expect_malloc_size; unsigned g_aborts;\n'
+           '/* std::abort does not return */\nvoid vstd_abort(void)\n__CPROVER_ensures(0)\n__CPROVER_assigns(g_aborts);\n')
+    h = '  _Bool in_check; g_aborts = 0;\n  $ROOT(in_check, "message");\n'
+    return Inst('c06_dynamic_check_body', 'bool c', 'detail::dynamic_check(c, "message");', cl, h, leaves=[], prop=PROP, root_name='dynamic_check', tier=tier,
+                pre=pre, extra_replace=['vstd_abort'], opts={'ostream_model': True},
+                note='std::cerr << msg << std::endl is dropped (M-ostream: diagnostics have no effect on the program state); std::abort is a stub that does not return')
+
+
+def non_class_inst(direction, to, frm, tier):
+    """detail::convert_type_non_class, the dispatcher every scalar crossing goes through (loads, stores, arguments, results,
+    struct fields), instantiated directly with a source type *wider* than the destination in either direction - the guest ABI of
+    the verification backend never has wider primitives than the application, so the public routes cannot show this case"""
+    cto, lo, hi = CXX_INTS[to]
+    cfr, flo, fhi = CXX_INTS[frm]
+    cl = [('objs', '__CPROVER_requires(__CPROVER_rw_ok($0, sizeof(*$0)) && __CPROVER_r_ok($1, sizeof(*$1)))'),
+          ('source_valid', '__CPROVER_requires(MI(*$1) >= %s && MI(*$1) <= %s)' % (mi(flo), mi(fhi))),
+          ('noabort_pre', '__CPROVER_requires(g_noabort ==> (MI(*$1) >= %s && MI(*$1) <= %s))' % (mi(lo), mi(hi))),
+          ('same_value_or_abort', '__CPROVER_ensures(MI(*$0) == MI(__CPROVER_old(*$1)))'),
+          ('frame', '__CPROVER_assigns(*$0)')]
+    h = '  %s to; %s from; %s in_from = from;\n  _Bool in_noabort; g_noabort = in_noabort;\n  $ROOT(&to, &from, (const void *)0, (void *)0);\n' % (cto, cfr, cfr)
+    return Inst('c06_non_class_%s_%s__from__%s' % (direction.lower(), tid(to), tid(frm)), '%s& to, const volatile %s& from' % (to, frm),
+                'detail::convert_type_non_class<vsbx, detail::adjust_type_direction::%s, detail::adjust_type_context::EXAMPLE>(to, from, nullptr, nullptr);' % direction,
+                cl, h, leaves=['dynamic_check'], prop=PROP, root_name='convert_type_non_class', tier=tier,
+                pre='_Bool g_noabort; _Bool g_backend_nonnull; unsigned long g_expect_example; unsigned long g_expect_malloc_size;',
+                note='dispatcher with direction %s: T_To=%s T_From=%s' % (direction, to, frm))
+
+
 def quick_pairs():
     # one pair per signedness/width branch of the function plus both boundary-sensitive neighbours
     q = [('int', 'long long'), ('long long', 'int'), ('unsigned int', 'unsigned long'), ('unsigned long', 'unsigned int'),
@@ -79,6 +112,9 @@ def units(tier):
     if tier != 'quick':
         apairs += [('long', 'unsigned long', 2), ('unsigned char', 'signed char', 8), ('unsigned long', 'unsigned int', 3), ('char', 'int', 4)]
     insts += [array_pair_inst(a, b, n, tier) for a, b, n in apairs]
+    insts.append(dynamic_check_body_inst(tier))
+    for d_, a_, b_ in [('TO_APPLICATION', 'int', 'long'), ('TO_APPLICATION', 'unsigned int', 'unsigned long'), ('TO_SANDBOX', 'int', 'long'), ('TO_APPLICATION', 'long', 'int'), ('NO_CHANGE', 'short', 'long long')]:
+        insts.append(non_class_inst(d_, a_, b_, tier))
     # "passing an argument of the parameter's own type, returning results": the invocation glue of C11 for signatures whose
     # long / unsigned long parameters and results narrow to 32 bits under the vsbx ABI (plain, tainted and opaque argument forms)
     from . import C11
